@@ -162,6 +162,9 @@ def core_scenarios():
     # a read of several rows overlapping a write of the same rows (execute ... fetchall is one critical section)
     out.append({"comp": "store", "cfg": {"initial": [["a", "j", 1], ["a", "k", 2], ["a", "m", 3], ["b", "k", 2]]},
                 "threads": [[["data", "a"]], [["del_all", "a"]], [["find", "k", 2]]]})
+    # more rows than one fetch batch (16): a row fetched early and a row fetched late are written in between
+    out.append({"comp": "store", "cfg": {"initial": [["a", "k%02d" % i, 0] for i in range(20)]},
+                "threads": [[["data", "a"]], [["set", "a", "k00", 1], ["set", "a", "k19", 1]]]})
     # readers overlapping a rewrite: a reader, the writer, another reader (reload) - in every order
     out.append({"comp": "textfile", "cfg": {"states": T_STATES, "conf": {}},
                 "threads": [[["get", "alpha"]], [["write", 1]], [["get", "alpha"]]]})
@@ -172,6 +175,10 @@ def core_scenarios():
                 "threads": [[["get", "alpha"]], [["get", "beta"]]]})
     out.append({"comp": "yaml", "cfg": {"states": Y_STATES, "cache_size": 4},
                 "threads": [[["get", "alpha"]], [["write", 1]], [["get", "beta"]]]})
+    # a warm per-system cache and a file that the system reaches twice (common and a both include shared), rewritten
+    # while the second call is under way: every file is seen in ONE state per call
+    out.append({"comp": "yaml", "cfg": {"states": Y_STATES, "cache_size": 4},
+                "threads": [[["get", "alpha"], ["get", "alpha"]], [["write", 1]]]})
     # a cache too small for both systems: the second call of one thread finds its entry, or finds it evicted
     out.append({"comp": "yaml", "cfg": {"states": Y_STATES, "cache_size": 1},
                 "threads": [[["get", "alpha"], ["get", "alpha"]], [["get", "beta"]]]})
